@@ -167,7 +167,14 @@ func (c *Ctx) RCONFrame() []core.Ob {
 						}
 					case strings.HasPrefix(cn, "encoding/binary.(") && strings.Contains(cn, ").AppendUint") && len(cc.Args) >= 3:
 						wd := map[string]int64{"AppendUint16": 2, "AppendUint32": 4, "AppendUint64": 8}[cn[strings.LastIndex(cn, ".")+1:]]
-						add(wd, cc.Args[len(cc.Args)-1])
+						// a loop over a small array literal of words: one element per entry, in index order
+						if elems := localArrayElems(cc.Args[len(cc.Args)-1]); len(elems) > 0 {
+							for _, ev := range elems {
+								add(wd, ev)
+							}
+						} else {
+							add(wd, cc.Args[len(cc.Args)-1])
+						}
 					case cn == "builtin.append" && len(cc.Args) == 2:
 						if bt, ok := cc.Args[0].Type().Underlying().(*types.Slice); ok {
 							if eb, ok := bt.Elem().Underlying().(*types.Basic); ok && eb.Kind() == types.Uint8 {
@@ -353,4 +360,71 @@ func constantString(k *ssa.Const) string {
 		return ""
 	}
 	return constant.StringVal(k.Value)
+}
+
+// localArrayElems: v is (a conversion of) an element of a local array literal read with a
+// non-constant index (the loop variable of `for _, x := range [...]T{a, b, c}`): the values
+// stored into the array, in index order. nil otherwise.
+func localArrayElems(v ssa.Value) []ssa.Value {
+	v = stripConv(v)
+	var base ssa.Value
+	switch x := v.(type) {
+	case *ssa.UnOp:
+		if x.Op != token.MUL {
+			return nil
+		}
+		ia, ok := x.X.(*ssa.IndexAddr)
+		if !ok {
+			return nil
+		}
+		if _, isK := constIntVal(ia.Index); isK {
+			return nil
+		}
+		base = ia.X
+	case *ssa.Index:
+		// range over the array value: t = *arr; t[i]
+		if _, isK := constIntVal(x.Index); isK {
+			return nil
+		}
+		ld, ok := x.X.(*ssa.UnOp)
+		if !ok || ld.Op != token.MUL {
+			return nil
+		}
+		base = ld.X
+	default:
+		return nil
+	}
+	if sl, ok := base.(*ssa.Slice); ok {
+		base = sl.X
+	}
+	al, ok := base.(*ssa.Alloc)
+	if !ok || al.Referrers() == nil {
+		return nil
+	}
+	arr, ok := deref(al.Type()).Underlying().(*types.Array)
+	if !ok || arr.Len() > 16 {
+		return nil
+	}
+	out := make([]ssa.Value, arr.Len())
+	for _, r := range *al.Referrers() {
+		ea, ok := r.(*ssa.IndexAddr)
+		if !ok || ea.Referrers() == nil {
+			continue
+		}
+		k, isK := constIntVal(ea.Index)
+		if !isK || k < 0 || k >= arr.Len() {
+			continue
+		}
+		for _, u := range *ea.Referrers() {
+			if st, ok := u.(*ssa.Store); ok && st.Addr == ssa.Value(ea) {
+				out[k] = st.Val
+			}
+		}
+	}
+	for _, x := range out {
+		if x == nil {
+			return nil
+		}
+	}
+	return out
 }
